@@ -168,6 +168,7 @@ def check_query(q, funcs, enums, tier, logdir):
             ex.modifies = q["modifies"](ctx)
         ex.stop_at = list(q.get("stop_at", ()))
         ex.loop_is_stop = bool(q.get("loop_is_stop"))
+        ex.release_arith = bool(q.get("release_arith"))
         sl = el = None
         if q.get("start_line") or q.get("end_line"):
             # slice of a large function, located through source text so that unrelated edits do not move it
